@@ -47,6 +47,8 @@ def op_templates(deep=False):
         ops.append(('peekr',) + ab)
     for ij in ((None, None), (0, None), (1, None), (None, 2), (0, 1), (1, 3), (2, 2), (3, 9), (5, None)):
         ops.append(('slice',) + ij)
+    for ijs in ((0, 6, 2), (None, None, 2), (1, None, 3), (None, None, -1), (4, 0, -2)):
+        ops.append(('slice3',) + ijs)
     for n in (1, 2, 3):
         ops.append(('hasNext', n))
     for s in ('', 'a', 'ab', 'b', 'bc'):
@@ -147,6 +149,11 @@ def run_sequence(backing, source, ops, flags=None, genuine=False):
         elif name == 'slice':
             exp = ''.join(t for t, _ in items[op[1]:op[2]])
             npos = pos
+        elif name == 'slice3':
+            if op[3] < 0 and op[1] is not None:
+                continue      # negative start bounds with a negative step are outside the statement
+            exp = ''.join(t for t, _ in items[op[1]:op[2]:op[3]])
+            npos = pos
         elif name == 'hasNext':
             exp = pos + op[1] - 1 < n
             npos = pos
@@ -188,7 +195,7 @@ def run_sequence(backing, source, ops, flags=None, genuine=False):
                 flags.add('backward_after_growth')
             if name in ('forward_until', 'num_forward_until', 'forward_until_buf') and peeked:
                 flags.add('scan_after_peek')
-            if name in ('peek', 'peekr', 'slice', 'hasNext', 'startswith'):
+            if name in ('peek', 'peekr', 'slice', 'slice3', 'hasNext', 'startswith'):
                 peeked = True
             if npos > pos:
                 grew = True
@@ -209,6 +216,8 @@ def run_sequence(backing, source, ops, flags=None, genuine=False):
                 got = real.peek((op[1], op[2]))
             elif name == 'slice':
                 got = real[op[1]:op[2]]
+            elif name == 'slice3':
+                got = real[op[1]:op[2]:op[3]]
             elif name == 'hasNext':
                 got = real.hasNext(op[1])
             elif name == 'startswith':
